@@ -28,9 +28,11 @@ const (
 	layGoInterp  layoutKind = "go-interpreted-literals"
 	layGoNested  layoutKind = "go-literals-in-expressions"
 	layGoSameLine layoutKind = "go-two-literals-on-one-line"
+	laySameBase   layoutKind = "same-file-name-in-two-directories"
+	layOutside    layoutKind = "operations-outside-the-config-directory"
 )
 
-var allLayouts = []layoutKind{layOneFile, layPerDef, layPartition, layGoRaw, layGoRawNL, layGoInterp, layGoNested, layGoSameLine}
+var allLayouts = []layoutKind{layOneFile, layPerDef, layPartition, layGoRaw, layGoRawNL, layGoInterp, layGoNested, layGoSameLine, laySameBase, layOutside}
 
 type placed struct {
 	File      string // relative file name
@@ -62,6 +64,31 @@ func layout(defs []gen.Def, kind layoutKind, r *proto.Rng) (map[string]string, [
 			name := fmt.Sprintf("ops/d%02d_%s.graphql", i, d.Name)
 			where[i] = placed{name, 1}
 			files[name] = block(d)
+		}
+	case laySameBase, layOutside:
+		// two files with the SAME base name in different directories, named by separate `operations:` entries
+		// (laySameBase), or one of them outside the config file's directory (layOutside: "../<dir>/…", the relative
+		// path a diagnostic must then start with)
+		names := []string{"users/queries.graphql", "teams/queries.graphql"}
+		if kind == layOutside {
+			names = []string{"queries.graphql", "../zz-outside-config-dir/queries.graphql"}
+		}
+		bufs := make([]strings.Builder, 2)
+		lines := []int{1, 1}
+		for i, d := range defs {
+			f := i % 2
+			if lines[f] > 1 {
+				bufs[f].WriteString("\n")
+				lines[f]++
+			}
+			where[i] = placed{names[f], lines[f]}
+			bufs[f].WriteString(block(d))
+			lines[f] += nlines(block(d))
+		}
+		for f := range bufs {
+			if bufs[f].Len() > 0 {
+				files[names[f]] = bufs[f].String()
+			}
 		}
 	case layPartition:
 		k := 1 + r.Intn(3)
@@ -103,7 +130,10 @@ func layout(defs []gen.Def, kind layoutKind, r *proto.Rng) (map[string]string, [
 				where[i] = placed{"queries.go", line + 3}
 				line += 3 + nlines(b) + 2
 			case layGoInterp:
-				fmt.Fprintf(&sb, "var _ = %s\n\n", strconv.Quote("# @genqlient\n\n"+b))
+				// the marker may be preceded by white space written as escapes ("\n\t# @genqlient…"): the literal's VALUE
+				// starts with the marker after trimming, which is what the documentation asks for
+				pre := proto.Pick(r, []string{"", "", "\n", "\t", "\n  \t"})
+				fmt.Fprintf(&sb, "var _ = %s\n\n", strconv.Quote(pre+"# @genqlient\n\n"+b))
 				where[i] = placed{"queries.go", line} // positions inside interpreted literals are not claimed by C18
 				line += 2
 			case layGoNested:
